@@ -120,6 +120,15 @@ func opParse(req *wire.Req, resp *wire.Resp) {
 
 func checkTimed(req *wire.Req, resp *wire.Resp, procs []*process.Process, assumed []process.Name, env *process.GlobalEnvironment) bool {
 	before := idSet(snapshot())
+	if req.YieldSeed != 0 {
+		// delay the caller of Typecheck right after it has started the checker goroutine (hook point 11)
+		installPerturb(func(k int) {
+			if k == 11 {
+				time.Sleep(time.Duration(1+req.YieldSeed%3) * time.Millisecond)
+			}
+		})
+		defer installPerturb(nil)
+	}
 	t0 := time.Now()
 	err := process.Typecheck(procs, assumed, env)
 	resp.CheckUs = time.Since(t0).Microseconds()
